@@ -3,6 +3,7 @@ package main
 import (
 	"encoding/json"
 	"fmt"
+	"math"
 	"math/big"
 	"regexp"
 	"sort"
@@ -211,9 +212,12 @@ func numRat(n json.Number) *big.Rat {
 	return r
 }
 
+// isIntegral: OpenAPI 3.0 takes its types from JSON Schema Wright draft 00, where an integer is "a JSON
+// number without a fraction or exponent part" — 2.0 and 1e2 are numbers, not integers (later drafts say
+// otherwise; the documents of these suites are 3.0.3)
 func isIntegral(n json.Number) bool {
 	r := numRat(n)
-	return r != nil && r.IsInt()
+	return r != nil && r.IsInt() && !strings.ContainsAny(string(n), ".eE")
 }
 
 func jsonEqualRef(a, b any) bool {
@@ -304,6 +308,14 @@ func (env Env) Valid(s *Schema, v any) bool {
 			return false
 		}
 		r := numRat(x)
+		// the format is a range: int32 "signed 32 bits", int64 (and no format: ogen's int) "signed 64 bits"
+		lo, hi := int64(math.MinInt64), int64(math.MaxInt64)
+		if s.Format == "int32" {
+			lo, hi = math.MinInt32, math.MaxInt32
+		}
+		if r.Cmp(new(big.Rat).SetInt64(lo)) < 0 || r.Cmp(new(big.Rat).SetInt64(hi)) > 0 {
+			return false
+		}
 		if s.MinI != nil {
 			c := r.Cmp(new(big.Rat).SetInt64(*s.MinI))
 			if c < 0 || (s.ExclMin && c == 0) {
